@@ -254,6 +254,22 @@ CHECKS["C16"] = dict(
          "points, the predefined laws, cubic terms of Stuart-Landau/oscillators for general states (no float "
          "arithmetic in TLA+). Controller rejects 1 input dimension, so architectures start at 2 inputs.")
 
+CHECKS["C12"] = dict(
+    category="model_checking", design_ref="DESIGN.md section 2 (C12)",
+    technique="budget/best-so-far process machine in TLA+ model-checked; every bundled setup executed twice with the same "
+              "seed with all objective calls recorded; process clauses, replica equality and fresh re-evaluation checked "
+              "by TLC; logged solutions re-judged by the domain specifications (objective definitions, feasibility)",
+    text="Process.tla: evaluations <= budget, best = minimum, evaluations after the budget only of the best. Runs: "
+         "bin-packing rls/fea x 7 objectives x 2 encodings (log files parsed back: packing, 7 values, objective bounds, "
+         "bin bounds), TSP EA/FEA, TTP (errors, plan length) and QAP RLS searches, instance generation with CMA-ES "
+         "(tiny inner budgets), controller synthesis (raw; surrogate in thorough). Trace_Run: budget, best = min of the "
+         "recorded evaluations, replica evaluation sequences bit-equal and same final solution, logged best = value of "
+         "a FRESH objective on the logged solution; Trace_Obj/Trace_LB/Trace_TSP/Trace_TTP/Trace_QAP recompute the "
+         "logged solution's value and feasibility from the specifications.",
+    note="Small budgets and a few instances/seeds per setup. TSP EA/FEA register (x, f) pairs themselves, so their "
+         "individual evaluations are not observable (covered by C06). The surrogate run is skipped if moptipy's "
+         "BiPopCMAES fails to write its restart log (dependency defect outside this repository).")
+
 NOT_YET = {
 }
 
